@@ -222,6 +222,34 @@ def mon_c14(case_line, acts):
         for e in a.events:
             if e[0] == 'r' and e[1] > max(cfg['rx'], 0):
                 out.append(V('read window of %d bytes with a %d byte receive buffer' % (e[1], cfg['rx'])))
+    # inbound: a packet longer than the advertised maximum ends the connection (it is not merely refused)
+    consumed = bytearray()
+    for i, a in enumerate(acts):
+        if a.code == 0:
+            consumed = bytearray()
+        for e in a.events:
+            if e[0] == 'r' and e[2]:
+                consumed += bytes.fromhex(e[3])
+        st = a.state or {}
+        if (a.result or '') == 'err InvalidPacket' and st.get('live') == '1' and cfg['rx'] > 0:
+            # walk the frames the reader has seen; is the one it stopped at longer than the receive buffer?
+            pos = 0
+            over = None
+            b = bytes(consumed)
+            while pos < len(b):
+                try:
+                    n, j = mqttspec.varint(b, pos + 1)
+                except (mqttspec.Malformed, IndexError):
+                    break
+                total = (j - pos) + n
+                if total > cfg['rx']:
+                    over = total
+                    break
+                pos += total
+            if over is not None:
+                out.append(V('an inbound packet of %d bytes exceeds the advertised Maximum Packet Size %d; action #%d refuses it '
+                             'with InvalidPacket but leaves the connection live' % (over, cfg['rx'], i)))
+                break
     return out
 
 
@@ -460,6 +488,17 @@ def mon_c19(case_line, acts):
                 for key in ('live', 'conn', 'ctl', 'used', 'sp'):
                     if key in st and key in prev and st.get(key) != prev.get(key):
                         out.append(V('refused request at action #%d changed %s: %s -> %s' % (i, key, prev.get(key), st.get(key))))
+        # a request on a dead handle: the documented error, no I/O, nothing allocated, queued or retained
+        if prev is not None and prev.get('conn') == '1' and prev.get('live') == '0' and a.code in (1, 2, 3, 4) and a.result not in (None, 'PANIC'):
+            if a.code != 4 and a.result not in ('err Disconnected', 'err InvalidRequest'):
+                out.append(V('request at action #%d on a dead handle returned %r, not the disconnected error' % (i, a.result)))
+            if any(e[0] in 'wrf' for e in a.events):
+                out.append(V('request at action #%d on a dead handle performed I/O: %s' % (i, a.events[:2])))
+            for key in ('ret', 'rel', 'ctl', 'pid', 'quota', 'h', 'gen', 'used', 'srv'):
+                if key in st and key in prev and st.get(key) != prev.get(key):
+                    out.append(V('request at action #%d on a dead handle (result %r) changed %s: %s -> %s'
+                                 % (i, a.result, key, prev.get(key), st.get(key))))
+                    break
         prev = st
     return out
 
